@@ -22,7 +22,7 @@ variable {τ : Type} [Field τ] [LinearOrder τ] [IsStrictOrderedRing τ]
 @[reducible] def fieldTime : TimeOps τ where
   zero := 0
   one := 1
-  three := 3
+  ofNat := fun n => (n : τ)
   decLt := fun _ _ => inferInstance
   decLe := fun _ _ => inferInstance
 
@@ -33,7 +33,7 @@ omit [IsStrictOrderedRing τ] in
 omit [IsStrictOrderedRing τ] in
 @[simp] theorem tone : (TimeOps.one : τ) = 1 := rfl
 omit [IsStrictOrderedRing τ] in
-@[simp] theorem tthree : (TimeOps.three : τ) = 3 := rfl
+@[simp] theorem tofNat (n : Nat) : (TimeOps.ofNat n : τ) = (n : τ) := rfl
 
 omit [IsStrictOrderedRing τ] in
 theorem clamp01_id {x : τ} (h0 : 0 ≤ x) (h1 : x ≤ 1) : clamp01 x = x := by
